@@ -296,6 +296,215 @@ def lifecycle_history(world, rnd, nops, disorder=0.0, reconf_cfgs=None, sync=Tru
     return {"world": world, "ops": ops, "consistent": disorder == 0.0}
 
 
+
+# ----------------------------------------------------------------------------------------- C11: restart + Synchronize
+
+LIGHT_CPU = [0, 100, 100, 250, 250, 500, 1000]
+
+
+def light_ctr(rnd, qos):
+    if qos == "BestEffort":
+        return {"cpureq": 0, "cpulim": 0, "memlim": 0, "memreq": 0}
+    cpu = max(100, rnd.choice(LIGHT_CPU))
+    mem = rnd.choice([64, 128, 256])
+    if qos == "Guaranteed":
+        return {"cpureq": cpu, "cpulim": cpu, "memlim": mem, "memreq": mem}
+    return {"cpureq": cpu, "cpulim": rnd.choice([0, cpu * 2]), "memlim": rnd.choice([0, mem]), "memreq": 64}
+
+
+def restart_history(world, rnd, nops):
+    """Light load (requests stay below half of the machine), then plugin restarts each followed by a Synchronize whose
+    runtime list differs from what the plugin last saw: containers gone, states changed, new pods/containers."""
+    ncpu = len(machine_cpus(world["machine"]))
+    budget = max(500, 400 * ncpu)          # mCPU, < 50 % of capacity
+    ops, pods, ctrs, pod_of, req = [], {}, {}, {}, {}
+    n = [0, 0]
+
+    def used():
+        return sum(req[c] for c, s in ctrs.items() if s in ("created", "running"))
+
+    def create():
+        if pods and rnd.random() < 0.3:
+            p = rnd.choice(list(pods))
+        else:
+            n[0] += 1
+            p = "p%d" % n[0]
+            pc = pod_class(rnd, world["policy"])
+            pods[p] = pc["qos"]
+            ops.append({"op": "RunPod", "pod": p, "pods": pc})
+        spec = light_ctr(rnd, pods[p])
+        if used() + spec["cpureq"] > budget:
+            spec = {"cpureq": 0, "cpulim": 0, "memlim": 0, "memreq": 0} if pods[p] == "BestEffort" else dict(spec, cpureq=100, cpulim=100 if pods[p] == "Guaranteed" else 0)
+        n[1] += 1
+        c = "c%d" % n[1]
+        ops.append({"op": "Create", "pod": p, "c": c, "ctr": spec})
+        ctrs[c], pod_of[c], req[c] = "created", p, spec["cpureq"]
+
+    def lifecycle(k):
+        for _ in range(k):
+            r = rnd.random()
+            live = [c for c, s in ctrs.items() if s in ("created", "running")]
+            if r < 0.45 or not ctrs:
+                create()
+            elif r < 0.65:
+                cs = [c for c, s in ctrs.items() if s == "created"]
+                if cs:
+                    c = rnd.choice(cs)
+                    ops.append({"op": "Start", "pod": pod_of[c], "c": c})
+                    ctrs[c] = "running"
+            elif r < 0.85 and live:
+                c = rnd.choice(live)
+                ops.append({"op": "Stop", "pod": pod_of[c], "c": c})
+                ctrs[c] = "stopped"
+            else:
+                cs = [c for c, s in ctrs.items() if s == "stopped"]
+                if cs:
+                    c = rnd.choice(cs)
+                    ops.append({"op": "Remove", "pod": pod_of[c], "c": c})
+                    del ctrs[c]
+
+    def restart_and_sync():
+        ops.append({"op": "Restart", "tag": "restart"})
+        newpods, newctrs = {}, {}
+        for c in list(ctrs):
+            r = rnd.random()
+            if r < 0.2:                               # gone while the plugin was down
+                del ctrs[c]
+            elif r < 0.3 and ctrs[c] == "created":
+                ctrs[c] = "running"
+            elif r < 0.4 and ctrs[c] in ("created", "running"):
+                ctrs[c] = "stopped"
+        for _ in range(rnd.choice([0, 0, 1, 2])):     # created while the plugin was down
+            n[0] += 1
+            p = "p%d" % n[0]
+            pc = pod_class(rnd, world["policy"])
+            pc["ann"] = {}        # a container the plugin never admitted must be admissible: no memory-type / balloon-type wishes
+            pods[p] = pc["qos"]
+            newpods[p] = pc
+            n[1] += 1
+            c = "c%d" % n[1]
+            spec = light_ctr(rnd, pc["qos"])
+            if used() + spec["cpureq"] > budget:
+                spec = dict(spec, cpureq=100 if pc["qos"] != "BestEffort" else 0, cpulim=0)
+            newctrs[c] = {"pod": p, "ctr": spec}
+            ctrs[c], pod_of[c], req[c] = "running", p, spec["cpureq"]
+        for p in list(pods):                          # pods without containers may be gone too
+            if not any(pod_of[c] == p for c in ctrs) and rnd.random() < 0.5:
+                del pods[p]
+        ops.append({"op": "Sync", "pods_list": sorted(pods), "ctrs": dict(ctrs), "newpods": newpods, "newctrs": newctrs, "tag": "resync"})
+
+    lifecycle(nops // 2)
+    restart_and_sync()
+    lifecycle(nops // 4)
+    if rnd.random() < 0.5:
+        restart_and_sync()
+        lifecycle(nops // 4)
+    for c in list(ctrs):
+        if ctrs[c] in ("created", "running"):
+            ops.append({"op": "Stop", "pod": pod_of[c], "c": c, "tag": "drain"})
+    for c in list(ctrs):
+        ops.append({"op": "Remove", "pod": pod_of[c], "c": c, "tag": "drain"})
+    for p in list(pods):
+        ops.append({"op": "StopPod", "pod": p, "tag": "drain"})
+        ops.append({"op": "RemovePod", "pod": p, "tag": "drain"})
+    return {"world": world, "ops": ops, "consistent": True}
+
+
+# ----------------------------------------------------------------------------------------- C13: reconfiguration
+
+def invalid_configs(world, rnd):
+    cfg = world["config"]
+    cpus = machine_cpus(world["machine"])
+    bad = [dict(cfg, reservedResources={"cpu": "cpuset:foo"}),
+           dict(cfg, availableResources={"cpu": "cpuset:%d" % cpus[-1]}, reservedResources={"cpu": "cpuset:%d" % cpus[0]}),
+           dict(cfg, reservedResources={"cpu": "cpuset:999"}),
+           dict(cfg, availableResources={"cpu": "cpuset:x-y"})]
+    if world["policy"] == "balloons":
+        t = copy.deepcopy(cfg.get("balloonTypes") or [{"name": "dyn"}])
+        bad += [dict(cfg, balloonTypes=t + [copy.deepcopy(t[0])]),                                  # duplicate type
+                dict(cfg, balloonTypes=[dict(t[0], minCPUs=4, maxCPUs=2)] + t[1:]),                 # ill-bounded
+                dict(cfg, balloonTypes=[dict(t[0], loads=["nosuchload"])] + t[1:]),                 # undefined load class
+                dict(cfg, balloonTypes=t + [{"name": "huge", "minBalloons": 4, "minCPUs": max(2, len(cpus) // 2)}])]  # unsatisfiable
+    return bad
+
+
+def valid_configs(world, rnd):
+    cfg = world["config"]
+    cpus = machine_cpus(world["machine"])
+    iso = set(world["machine"].get("isolated") or [])
+    cand = [c for c in cpus if c not in iso]
+    out = [dict(cfg, pinMemory=not cfg.get("pinMemory", True)), dict(cfg, pinCPU=not cfg.get("pinCPU", True)),
+           dict(cfg, reservedResources={"cpu": "cpuset:%d" % rnd.choice(cand)})]
+    if world["policy"] == "ta":
+        out += [dict(cfg, preferSharedCPUs=not cfg.get("preferSharedCPUs", False)), dict(cfg, reservedPoolNamespaces=["rsv-*", "other"])]
+    else:
+        t = copy.deepcopy(cfg.get("balloonTypes") or [])
+        if t:
+            out += [dict(cfg, balloonTypes=[dict(t[0], maxCPUs=3)] + t[1:]), dict(cfg, balloonTypes=t + [{"name": "extra", "minCPUs": 1, "maxCPUs": 2}]),
+                    dict(cfg, balloonTypes=[dict(t[0], shareIdleCPUsInSame="system")] + t[1:])]
+    return out
+
+
+def reconf_histories(world, rnd, nops):
+    """Returns a triple [A, B, B2]: B is a lifecycle history with identical/valid reconfigurations injected; A additionally
+    receives one INVALID configuration at a request boundary; B2 is a control identical to B."""
+    base = lifecycle_history(world, rnd, nops, disorder=0.0, reconf_cfgs=valid_configs(world, rnd), sync=False)
+    k = rnd.randrange(1, max(2, len(base["ops"]) - 12))
+    bad = {"op": "Reconfigure", "config": rnd.choice(invalid_configs(world, rnd)), "tag": "invalid"}
+    a = copy.deepcopy(base)
+    a["ops"].insert(k, bad)
+    a["twin"] = {"role": "A", "at": k}
+    b = copy.deepcopy(base)
+    b["twin"] = {"role": "B"}
+    b2 = copy.deepcopy(base)
+    b2["twin"] = {"role": "B2"}
+    return [a, b, b2]
+
+
+def _cmp_key(e):
+    d = {k: v for k, v in e.items() if k not in ("h", "k", "msg", "tw", "tag")}
+    # the order of updates inside one reply follows Go map iteration order: not a difference
+    if "upd" in d:
+        d["upd"] = sorted(d["upd"], key=lambda u: u["c"])
+    if "pushed" in d:
+        d["pushed"] = [sorted(b, key=lambda u: u["c"]) for b in d["pushed"]]
+    if "st" in d and "pend" in d["st"]:
+        d["st"] = dict(d["st"], pend=sorted(d["st"]["pend"]))
+    return json.dumps(d, sort_keys=True)
+
+
+def annotate_twins(trace_path, hs):
+    """For every triple (A, B, B2) compare, line by line after the injected update, A with B and B with B2 and write
+    the verdict into A's lines (field `tw`), for the trace spec to judge (Act_RejectedLeavesNoTrace)."""
+    by_h = {}
+    lines = []
+    for l in open(trace_path):
+        e = json.loads(l)
+        lines.append(e)
+        by_h.setdefault(e["h"], []).append(e)
+    for i, h in enumerate(hs):
+        tw = h.get("twin")
+        if not tw or tw["role"] != "A":
+            continue
+        A, B, B2 = by_h.get(i, []), by_h.get(i + 1, []), by_h.get(i + 2, [])
+        if not A or len(B) != len(B2) or len(A) != len(B) + 1:
+            continue                                     # refused creations dropped different ops: not comparable
+        at = tw["at"] + 1                                # +1: the reset line
+        if at >= len(A) or A[at].get("ev") != "Reconfigure" or not A[at].get("err"):
+            continue                                     # the "invalid" configuration was accepted: nothing to compare
+        for j in range(at + 1, len(A)):
+            same = _cmp_key(A[j]) == _cmp_key(B[j - 1])
+            ctl = _cmp_key(B[j - 1]) == _cmp_key(B2[j - 1])
+            diff = ""
+            if not same:
+                ka, kb = A[j], B[j - 1]
+                diff = ",".join(sorted(k for k in set(ka) | set(kb) if k not in ("h", "k", "msg", "tw", "tag") and ka.get(k) != kb.get(k)))
+            A[j]["tw"] = {"same": same, "ctl": ctl, "diff": diff}
+    with open(trace_path, "w") as f:
+        for e in lines:
+            f.write(json.dumps(e, separators=(",", ":")) + "\n")
+
+
 def run_histories(binp, hs, outdir, shards=None, timeout=900):
     """Run histories on the real code in parallel shards; returns the merged trace path."""
     import concurrent.futures as cf
